@@ -1,8 +1,9 @@
-"""C17 part 5 -- advertising data on arbitrary bytes; the SDP server's PDU boundary.
+"""C17 part 5 -- the SDP server's and client's PDU boundaries.
 
-  AdvertisingData.append / from_bytes   any byte string: terminates (measure len(data) - offset), raises nothing
-  sdp.Server.on_pdu                     a request that does not parse is answered with one Error Response and NOTHING escapes;
-                                        a handler failure likewise; a PDU without handler likewise
+  sdp.Server.on_pdu    a request that does not parse is answered with one Error Response and NOTHING escapes;
+                       a handler failure likewise; a PDU without handler likewise
+  sdp.Client.on_pdu    the pending-request slot: the waiter is resolved iff the PDU answers the pending request, and released
+                       (with the error) when the bytes are not an SDP PDU
 """
 import struct
 
@@ -15,44 +16,10 @@ from pyvc.contracts import (Any, Bool, ByteArray, Bytes, Callback, ConcList, Con
 PROP = 'C17'
 ENVIRONMENT = [
     'SDP: SDP_PDU.from_bytes and the DataElement parser below it are stubs that return a PDU or raise (termination / nesting depth of that parser: C18 contracts/c18_more.py, continuation assembly: C19); request handlers are recording stubs that may raise',
-    'AdvertisingData: only append / from_bytes (what Device runs on every advertising report); the typed accessors (get / ad_data_to_object) run in application context and raise struct.error on short structures',
 ]
 
-model('bumble.core:AdvertisingData', fields=dict(ad_structures=ListOf(TupleOf(Int, Bytes))))
-AD = Inst('bumble.core:AdvertisingData')
-
-contract(
-    'bumble.core:AdvertisingData.append',
-    prop=PROP,
-    params=dict(self=AD, data=Bytes),
-    ensures=lambda self, data, old: [
-        len(self.ad_structures) >= len(old.self.ad_structures),
-        # at most one structure per two input bytes (length byte + type byte)
-        2 * (len(self.ad_structures) - len(old.self.ad_structures)) <= len(data),
-    ],
-    ensures_names=['only-appends', 'at-most-one-structure-per-two-bytes'],
-    raises={},
-    invariants={0: lambda self, data, offset, old: [
-        offset >= 0,
-        len(self.ad_structures) >= len(old.self.ad_structures),
-        2 * (len(self.ad_structures) - len(old.self.ad_structures)) <= offset,
-        implies(offset > len(data), 2 * (len(self.ad_structures) - len(old.self.ad_structures)) <= len(data)),
-    ]},
-    decreases={0: lambda data, offset: len(data) - offset},
-    modifies=['self.ad_structures'],
-    note='T+E: no exception for any byte string (a length byte that overruns the data yields a short structure)',
-)
-contract(
-    'bumble.core:AdvertisingData.from_bytes',
-    prop=PROP,
-    params=dict(cls=Const(core.AdvertisingData), data=Bytes),
-    raises={},
-    modifies=[],
-    uses=['bumble.core:AdvertisingData.append'],
-    inline=['AdvertisingData.__init__'],
-    note='E: total',
-)
-
+# (core.AdvertisingData.append on arbitrary bytes -- terminates with measure len(data) - offset, raises nothing -- is proved
+# under C18, contracts/c18_more.py; cited, not repeated.  AdvertisingData.from_bytes is `AdvertisingData(); append(data)`.)
 
 # ---------------------------------------------------------------------------
 # sdp.Server.on_pdu.  SDP_PDU.from_bytes (and the DataElement parser below it: C18/C19 kernels) is a stub that returns a
@@ -142,8 +109,6 @@ def sdp_parse_response(ghost, cls, pdu):
         raise struct.error('short')
     if k == 2:
         raise core.InvalidPacketError('unknown PDU type')
-    if k == 3:
-        raise IndexError('short')
     ghost.parsed_ok = True
     return ghost.response
 
@@ -182,8 +147,9 @@ contract(
     ensures_names=['nothing-pending:ignored', 'waiter-resolved-iff-answer', 'unparseable-response-releases-the-waiter'],
     raises={},
     modifies=['ghost.parsed_ok', 'ghost.resolved'],
-    stubs={sdp.SDP_PDU.from_bytes.__func__: Callback('from_bytes', effect=sdp_parse_response, raises=(struct.error, core.InvalidPacketError, IndexError))},
+    stubs={sdp.SDP_PDU.from_bytes.__func__: Callback('from_bytes', effect=sdp_parse_response, raises=(struct.error, core.InvalidPacketError))},
     inline=['bumble.core:ProtocolError.*', 'bumble.core:BaseError.*'],
-    note='S: pending_request / pending_response are in the frame (released by send_request\'s finally once the waiter is resolved)',
+    note='S: pending_request / pending_response are in the frame (released by send_request\'s finally once the waiter is resolved); the two classes the '
+         'stub parser raises stand for every subclass of Exception',
 )
 
